@@ -145,6 +145,25 @@ def scorer_case(ctx, r):
             idx = rng.choice(len(same_outer), size=min(20, len(same_outer)), replace=False)
             cuts = [same_outer[int(i)] for i in idx]
     cuts = np.array(cuts, dtype=np.int64)
+    # batch shape: random rows, or a *regular* batch as a detector would ask for it -- a window of constant
+    # (generally unequal) part sizes slid over the series, possibly a single row
+    shape = int(rng.integers(4))
+    if shape >= 2:
+        from vf.core import regular_subbatches
+
+        d0 = np.diff(cuts[int(rng.integers(len(cuts)))])
+        span = int(d0.sum())
+        win = [tuple(int(v) for v in np.concatenate(([t], t + np.cumsum(d0)))) for t in range(0, n - span + 1)]
+        win = [c for c in win if SM.cut_is_valid(desc, c, n, p)]
+        if win:
+            if shape == 3:
+                win = [win[int(rng.integers(len(win)))]]
+            elif len(win) > 30:
+                win = [win[int(i)] for i in np.sort(rng.choice(len(win), size=30, replace=False))]
+            cuts = np.array(win, dtype=np.int64)
+            ctx.stat("scorer_pairs_sliding_window" if shape == 2 else "scorer_pairs_single_row")
+            if len(set(np.diff(cuts[0]).tolist())) > 1:
+                ctx.stat("scorer_pairs_regular_unequal_parts")
     X2 = transform_data(X, T)
     spec2 = permute_spec(spec, T["perm"]) if kind == "permute" else spec
     label = f"{short(spec)} X[{n}x{p}] T={T}"
